@@ -63,6 +63,11 @@ let print_obs o =
   | OStep k -> Printf.printf "STEP %d\n" (n k)
   | OEv e -> print_ev e
   | ORes r -> Printf.printf "RES %d\n" (i r)
+  | OElem (e, aid, bid, u, fields) ->
+      Printf.printf "ELEM %d %d %d %d\n" (n e) (i aid) (n bid) (i u);
+      List.iteri (fun f (fo, objs) -> Printf.printf "F %d %d %d %s\n" f (i fo) (List.length objs) (hex objs)) fields
+  | OENull e -> Printf.printf "ENULL %d\n" (n e)
+  | OEGone e -> Printf.printf "EGONE %d\n" (n e)
   | OIter r -> Printf.printf "ITER %s\n" (zs r)
   | OCmp r -> Printf.printf "CMP %s\n" (String.concat " " (List.map (fun b -> if b then "1" else "0") r))
   | ONull (s, sz) -> Printf.printf "NULL %d %d\n" (n s) (i sz)
@@ -113,6 +118,20 @@ let parse_op params toks =
   | "write" :: s :: i :: k :: o :: _ :: bs -> OpWrite (nat s, z i, nat k, z o, List.map z bs)
   | "algo" :: [kind; s; a; b; c; s2] -> OpAlgo (nat kind, nat s, z a, z b, z c, nat s2)
   | "iter" :: [s; i; j] -> OpIter (nat s, z i, z j)
+  | "efromref" :: [e; s; i; form; aid] -> OpEFromRef (nat e, nat s, z i, form = "2", (if int_of_string aid < 0 then Z0 else z aid))
+  | "ecopy" :: [d; s] -> OpECopy (nat d, nat s)
+  | "ecopyalloc" :: [d; s; aid] -> OpECopyAlloc (nat d, nat s, z aid)
+  | "emove" :: [d; s] -> OpEMove (nat d, nat s)
+  | "emovealloc" :: [d; s; aid] -> OpEMoveAlloc (nat d, nat s, z aid)
+  | "ecopyassign" :: [d; s] -> OpECopyAssign (nat d, nat s)
+  | "emoveassign" :: [d; s] -> OpEMoveAssign (nat d, nat s)
+  | "eswap" :: [a; b] -> OpESwap (nat a, nat b)
+  | "eassignref" :: [e; s; i; form] -> OpEAssignRef (nat e, nat s, z i, form = "2")
+  | "refassigne" :: [s; i; e; form] -> OpRefAssignE (nat s, z i, nat e, form = "2")
+  | "edestroy" :: [e] -> OpEDestroy (nat e)
+  | "eobserve" :: [e] -> OpEObserve (nat e)
+  | "ecmpe" :: [a; b] -> OpECmpE (nat a, nat b)
+  | "ecmpr" :: [e; s; i] -> OpECmpR (nat e, nat s, z i)
   | "cmpvec" :: [a; b] -> OpCmpVec (nat a, nat b)
   | "cmpref" :: [a; i; b; j] -> OpCmpRef (nat a, z i, nat b, z j)
   | "observe" :: [s] -> OpObserve (nat s)
